@@ -227,7 +227,9 @@ Proof.
     destruct i as [|i]; cbn [nth_error] in Hn.
     + inversion Hn; subst x. cbn [ob]. auto.
     + destruct (IH _ i tr C3 Hn) as [A B]. split; [exact A|].
-      rewrite B. destruct i as [|i']; cbn [ob map nth_error]; reflexivity.
+      rewrite B. cbn [map].
+      rewrite (ob_cons po (absf z x) (map (absf z) r) i); [reflexivity|].
+      rewrite map_length. apply nth_some_lt in Hn. lia.
 Qed.
 
 (* everything about transition number i *)
